@@ -1,6 +1,8 @@
 package main
 
 import (
+	"crypto/sha256"
+	"encoding/hex"
 	"encoding/json"
 	"fmt"
 	"os"
@@ -72,7 +74,114 @@ func repoTreeState(repo string) string {
 	return strings.TrimSpace(string(out))
 }
 
+// benign variants are evaluated for all properties at once (one load of the variant) and the
+// per-property outcome is cached under evidence/cache, keyed by the checker binary, the state of
+// /repo and the patch — so the twenty thorough commands share one evaluation of each benign patch.
+func benignCacheKey(cc *corpusCase, repo string) string {
+	h := sha256.New()
+	if exe, err := os.Executable(); err == nil {
+		if b, err := os.ReadFile(exe); err == nil {
+			h.Write(b)
+		}
+	}
+	h.Write([]byte(repoTreeState(repo)))
+	if out, err := exec.Command("git", "-C", repo, "diff", "HEAD").Output(); err == nil {
+		h.Write(out)
+	}
+	if b, err := os.ReadFile(cc.Patch); err == nil {
+		h.Write(b)
+	}
+	if b, err := os.ReadFile(filepath.Join(verifDir(), "known_findings.json")); err == nil {
+		h.Write(b)
+	}
+	return hex.EncodeToString(h.Sum(nil))[:32]
+}
+
+func runBenignAll(cc *corpusCase, repo string) map[string]string {
+	cdir := filepath.Join(verifDir(), "evidence", "cache")
+	cfile := filepath.Join(cdir, "benign-"+benignCacheKey(cc, repo)+".json")
+	if b, err := os.ReadFile(cfile); err == nil {
+		var m map[string]string
+		if json.Unmarshal(b, &m) == nil && len(m) > 0 {
+			return m
+		}
+	}
+	res := map[string]string{}
+	d, err := os.MkdirTemp("", "jenlint-selftest-")
+	if err != nil {
+		return map[string]string{"*": "skipped:mktemp"}
+	}
+	defer os.RemoveAll(d)
+	if err := exec.Command("rsync", "-a", "--exclude", ".git", repo+"/", d+"/repo/").Run(); err != nil {
+		return map[string]string{"*": "skipped:copy"}
+	}
+	pf, err := os.Open(cc.Patch)
+	if err != nil {
+		return map[string]string{"*": "skipped:nopatch"}
+	}
+	defer pf.Close()
+	pc := exec.Command("patch", "-p1", "-F0", "--no-backup-if-mismatch", "-s")
+	pc.Dir = filepath.Join(d, "repo")
+	pc.Stdin = pf
+	if err := pc.Run(); err != nil {
+		return map[string]string{"*": "skipped:patch does not apply to this tree"}
+	}
+	exe, _ := os.Executable()
+	run := exec.Command(exe, "check", "all", "--tier", "quick")
+	run.Env = append(os.Environ(), "JENLINT_REPO="+filepath.Join(d, "repo"), "JENLINT_VERIF="+filepath.Join(d, "verif"), "JENLINT_KNOWN="+filepath.Join(verifDir(), "known_findings.json"))
+	out, err := run.CombinedOutput()
+	code := 0
+	if ee, ok := err.(*exec.ExitError); ok {
+		code = ee.ExitCode()
+	}
+	if code == 2 {
+		if strings.Contains(string(out), "type-check failure") {
+			return map[string]string{"*": "skipped:variant does not type-check"}
+		}
+		return map[string]string{"*": "broken"}
+	}
+	for _, line := range strings.Split(string(out), "\n") {
+		f := strings.Fields(line)
+		if len(f) > 5 && strings.HasPrefix(f[1], "tier=") && strings.HasPrefix(f[0], "C") {
+			r := "silent"
+			for _, kv := range f {
+				if strings.HasPrefix(kv, "violations=") && kv != "violations=0" {
+					r = "fired"
+				}
+			}
+			res[f[0]] = r
+		}
+	}
+	if len(res) > 0 {
+		os.MkdirAll(cdir, 0o755)
+		if b, err := json.Marshal(res); err == nil {
+			os.WriteFile(cfile, b, 0o644)
+		}
+	}
+	return res
+}
+
 func runCase(cc *corpusCase, repo string) {
+	if cc.Kind == "benign" {
+		m := runBenignAll(cc, repo)
+		r, ok := m[cc.Property]
+		if !ok {
+			r = m["*"]
+		}
+		if r == "" {
+			r = "broken"
+		}
+		cc.Result = r
+		switch {
+		case strings.HasPrefix(r, "skipped"):
+			cc.OK = true
+		case r == "silent":
+			cc.OK = true
+		default:
+			cc.OK = false
+		}
+		return
+	}
 	d, err := os.MkdirTemp("", "jenlint-selftest-")
 	if err != nil {
 		cc.Result = "skipped:mktemp"
@@ -128,7 +237,26 @@ func runCase(cc *corpusCase, repo string) {
 
 // runSelftest runs the corpus for one property; returns a summary for the evidence file and whether
 // the run must be declared broken.
+// pruneBenignCache drops cached outcomes computed by an older build of the checker.
+func pruneBenignCache() {
+	exe, err := os.Executable()
+	if err != nil {
+		return
+	}
+	st, err := os.Stat(exe)
+	if err != nil {
+		return
+	}
+	fs, _ := filepath.Glob(filepath.Join(verifDir(), "evidence", "cache", "benign-*.json"))
+	for _, f := range fs {
+		if fi, err := os.Stat(f); err == nil && fi.ModTime().Before(st.ModTime()) {
+			os.Remove(f)
+		}
+	}
+}
+
 func runSelftest(prop string, repo string, repoClean bool) (map[string]interface{}, bool) {
+	pruneBenignCache()
 	cases := corpusFor(prop)
 	authored := ""
 	if b, err := os.ReadFile(filepath.Join(verifDir(), "selftest", "AUTHORED_TREE")); err == nil {
